@@ -190,9 +190,9 @@ def run(fx, R, tier):
             tag = 'aligned' if len(f['params']) == 2 else 'indexed'
             tails.append(check_estimate(fx, R, cname, f, tag))
         if all(t is not None for t in tails):
-            R.check(tails[0] == tails[1], 'V5', '%s::estimate_:overload-agreement' % cname,
-                    'the two estimate_ overloads differ after the covariance loop: %s vs %s' % (first_diff(tails[0], tails[1])),
-                    'identical SVD / correction / rotation / translation statements', fx.rel(ests[0]['loc']), 'E-SIB')
+            R.form(tails[0] == tails[1], 'V5', '%s::estimate_:overload-agreement' % cname,
+                   'the two estimate_ overloads are written differently after the covariance loop (%s vs %s); each is decided on its own by V1-V3' % (first_diff(tails[0], tails[1])),
+                   'identical SVD / correction / rotation / translation statements', fx.rel(ests[0]['loc']), 'E-SIB')
         check_find(fx, R, cq, cname)
     check_preconditioned_set(fx, R)
 
@@ -253,11 +253,15 @@ def check_estimate(fx, R, cname, f, tag):
     role1 = 'source' if contains(cb['$P1'], 'sourcePoints') else 'target' if contains(cb['$P1'], 'targetPoints') else '?'
     role2 = 'source' if contains(cb['$P2'], 'sourcePoints') else 'target' if contains(cb['$P2'], 'targetPoints') else '?'
     means_ok = (cb['$M1'], cb['$M2']) == (role1 + 'Mean', role2 + 'Mean')
-    R.check(means_ok and {role1, role2} == {'source', 'target'}, 'V3', inst + ':centering',
-            'covariance term is (%s - %s)(%s - %s)^T: each set must be centred on its own mean' % (cb['$P1'], cb['$M1'], cb['$P2'], cb['$M2']),
-            'each set centred on its own mean', fx.rel(covs[0][1][2]['loc']), 'E-SIB')
+    known_means = {cb['$M1'], cb['$M2']} <= {'sourceMean', 'targetMean'} and {role1, role2} <= {'source', 'target'}
+    R.form(means_ok and {role1, role2} == {'source', 'target'}, 'V3', inst + ':centering',
+           'covariance term (%s - %s)(%s - %s)^T not in the enumerated form' % (cb['$P1'], cb['$M1'], cb['$P2'], cb['$M2']),
+           'each set centred on its own mean', fx.rel(covs[0][1][2]['loc']), 'E-SIB',
+           facts=[(known_means and not means_ok, 'covariance term is (%s - %s)(%s - %s)^T: a set is centred on the mean of the other set' % (cb['$P1'], cb['$M1'], cb['$P2'], cb['$M2'])),
+                  (known_means and role1 == role2, 'covariance term is (%s - %s)(%s - %s)^T: both factors come from the %s set' % (cb['$P1'], cb['$M1'], cb['$P2'], cb['$M2'], role1))])
     on_block = contains(svddef, ('.block', cb['$C'], 0, 0, 'CARTESIAN_DIM', 'CARTESIAN_DIM'))
-    R.check(on_block, 'V3', inst + ':svd-input', 'the SVD is not taken of the CARTESIAN block of the accumulated covariance: %s' % (svddef,), 'SVD of cov.block(0,0,D,D)', fx.rel(f['loc']), 'E-SIB')
+    R.form(on_block, 'V3', inst + ':svd-input', 'the SVD input %s is not the enumerated cov.block(0,0,D,D)' % (svddef,), 'SVD of cov.block(0,0,D,D)', fx.rel(f['loc']), 'E-SIB',
+           facts=[(not contains(svddef, cb['$C']), 'the SVD is taken of %s, which does not involve the accumulated covariance %s' % (svddef, cb['$C']))])
     form = None
     core = rhs_x
     if m(('*', v, ('.transpose', u)), core, {}):
@@ -284,14 +288,20 @@ def check_estimate(fx, R, cname, f, tag):
     # ---- V2 ----------------------------------------------------------------
     hdecl = decls.get(H)
     ident = hdecl is not None and contains(hdecl[1], ('Eigen::MatrixBase<%s>::Identity' % '',)) or (hdecl is not None and 'Identity' in str(hdecl[1]))
-    R.check(bool(ident), 'V2', inst + ':identity', 'H does not start as the identity: %s' % (hdecl,), 'H starts as identity', fx.rel(f['loc']), 'E-ALG')
+    R.form(bool(ident), 'V2', inst + ':identity', 'H is not declared as Identity(): %s' % (hdecl,), 'H starts as identity', fx.rel(f['loc']), 'E-ALG',
+           facts=[(hdecl is not None and 'Zero' in str(hdecl[1]) and not any(contains(e[1], '.setIdentity') for e in ev), 'H starts as Zero() and is never set to the identity: the homogeneous row of the result is 0')])
     tr = [e for e in ev[ri + 1:] if e[0] == 'expr' and isinstance(e[1], tuple) and e[1][0] in ('+=', '=') and m(('.block', H, 0, 'CARTESIAN_DIM', '$R', 1), e[1][1], {})]
     okt = False
     if len(tr) == 1:
         e = tr[0][1]
         okt = m((e[0], ('.block', H, 0, 'CARTESIAN_DIM', '$R', 1), ('-', 'targetMean', ('*', ('.block', H, 0, 0, '$R', '$R'), 'sourceMean'))), e, {})
-    R.check(okt, 'V2', inst + ':translation', 'translation column is not targetMean - R*sourceMean computed after the rotation is stored: %s' % ([t[1] for t in tr],),
-            't = targetMean - R*sourceMean', fx.rel(tr[0][2]['loc']) if tr else fx.rel(f['loc']), 'E-ALG')
+    tb = {}
+    generic_t = len(tr) == 1 and m((tr[0][1][0], ('.block', H, 0, 'CARTESIAN_DIM', '$R', 1), ('-', '$A', ('*', ('.block', H, 0, 0, '$R', '$R'), '$B'))), tr[0][1], tb)
+    R.form(okt, 'V2', inst + ':translation', 'translation column not in the enumerated form targetMean - R*sourceMean after the rotation store: %s' % ([t[1] for t in tr],),
+           't = targetMean - R*sourceMean', fx.rel(tr[0][2]['loc']) if tr else fx.rel(f['loc']), 'E-ALG',
+           facts=[(bool(generic_t) and {tb.get('$A'), tb.get('$B')} <= {'sourceMean', 'targetMean'} and (tb.get('$A'), tb.get('$B')) != ('targetMean', 'sourceMean'),
+                   'translation column is %s - R*%s: the centroid map is targetMean - R*sourceMean (this is the translation of another motion)' % (tb.get('$A'), tb.get('$B'))),
+                  (not tr and not any(contains(e[1], ('.block', H, 0, 'CARTESIAN_DIM')) or contains(e[1], '.translation') for e in ev[ri + 1:]), 'no statement after the rotation store writes the translation column')])
     # means
     loops = loop_map(f)
     if tag == 'indexed':
@@ -328,7 +338,10 @@ def check_estimate(fx, R, cname, f, tag):
         sm, tm = decls.get('sourceMean'), decls.get('targetMean')
         okm = sm is not None and tm is not None and isinstance(sm[1], tuple) and sm[1][0] == 'mean' and sm[1][1:] == ('sourcePoints',) \
             and isinstance(tm[1], tuple) and tm[1][0] == 'mean' and tm[1][1:] == ('targetPoints',)
-        R.check(okm, 'V2', inst + ':means', 'means are not mean(sourcePoints)/mean(targetPoints): %s %s' % (sm, tm), 'means of the two sets', fx.rel(f['loc']), 'E-SIB')
+        swapped_m = sm is not None and tm is not None and isinstance(sm[1], tuple) and isinstance(tm[1], tuple) and sm[1][0] == 'mean' and tm[1][0] == 'mean' and \
+            (sm[1][1:], tm[1][1:]) in ((('targetPoints',), ('sourcePoints',)), (('sourcePoints',), ('sourcePoints',)), (('targetPoints',), ('targetPoints',)))
+        R.form(okm, 'V2', inst + ':means', 'means are not in the enumerated form mean(sourcePoints)/mean(targetPoints): %s %s' % (sm, tm), 'means of the two sets', fx.rel(f['loc']), 'E-SIB',
+               facts=[(swapped_m, 'sourceMean / targetMean are %s / %s: a mean is taken of the wrong set' % (sm[1] if sm else None, tm[1] if tm else None))])
         ci = covs[0][0]
         lpc = loops.get(id(ev[ci][2]))
         nvar = full_index_loop(lpc, 'sourcePoints') or full_index_loop(lpc, 'targetPoints')
@@ -344,7 +357,7 @@ def check_estimate(fx, R, cname, f, tag):
         R.undecided('V3', inst + ':pairs', 'how the covariance fetches its pair is not resolved: %s with %s' % (cb['$P1'], cb['$P2']))
     # the returned matrix is H
     rets = [e for e in ev if e[0] == 'return']
-    R.check(len(rets) == 1 and rets[0][1] == H, 'V2', inst + ':return', 'does not return the assembled matrix', 'returns H', fx.rel(f['loc']), 'E-SIB')
+    R.form(len(rets) == 1 and rets[0][1] == H, 'V2', inst + ':return', 'the return statement(s) %s are not `return %s`' % ([r_[1] for r_ in rets], H), 'returns H', fx.rel(f['loc']), 'E-SIB')
     # tail for overload comparison (from the svd declaration on, guards included)
     start = decls[svdname][0]
     return [(e[0], e[1], tuple(g[0] for g in e[3])) for e in ev[start:]]
@@ -547,16 +560,24 @@ def check_find(fx, R, cq, cname):
         if not pre:
             args = ('sourcePoints', 'targetPoints') + (('correspondences',) if withc else ())
             ok = [e[1] for e in ev if e[0] in ('return', 'expr', 'decl')] == [('.estimate_', 'this') + args]
-            R.check(ok, 'V4', inst, 'raw overload is not `return estimate_(source, target%s)`: %s' % (', correspondences' if withc else '', [e[1] for e in ev]),
-                    'returns estimate_ unchanged', fx.rel(f['loc']), 'E-SIB')
+            R.form(ok, 'V4', inst, 'raw overload is not the enumerated `return estimate_(source, target%s)`: %s' % (', correspondences' if withc else '', [e[1] for e in ev]),
+                   'returns estimate_ unchanged', fx.rel(f['loc']), 'E-SIB',
+                   facts=[(not any(contains(e[1], '.estimate_') for e in ev), 'the raw overload never calls estimate_()'),
+                          (any(e[0] == 'return' and isinstance(e[1], tuple) and e[1][:2] == ('.estimate_', 'this') and e[1][2:4] == ('targetPoints', 'sourcePoints') for e in ev),
+                           'the raw overload passes (target, source) to estimate_(source, target): it returns the inverse motion')])
         else:
             args = (('.get', 'sourcePoints'), ('.get', 'targetPoints')) + (('correspondences',) if withc else ())
             want = [('decl', ('H', ('.estimate_', 'this') + args)),
                     ('expr', ('/=', ('.block', 'H', 0, 'CARTESIAN_DIM', 'CARTESIAN_DIM', 1), ('()', ('.getPreconditioningMatrix', 'targetPoints'), 0, 0))),
                     ('return', 'H')]
             got = [(e[0], e[1]) for e in ev]
-            R.check(got == want, 'V4', inst, 'preconditioned overload does not divide exactly the translation block by the target scale after estimate_(source.get(), target.get()%s): %s' % (
-                ', correspondences' if withc else '', got), 'translation block /= target scale', fx.rel(f['loc']), 'E-SIB')
+            tblock = ('.block', 'H', 0, 'CARTESIAN_DIM', 'CARTESIAN_DIM', 1)
+            scale_t, scale_s = ('()', ('.getPreconditioningMatrix', 'targetPoints'), 0, 0), ('()', ('.getPreconditioningMatrix', 'sourcePoints'), 0, 0)
+            upd = [e[1] for e in ev if e[0] == 'expr' and isinstance(e[1], tuple) and len(e[1]) == 3 and e[1][1] == tblock]
+            R.form(got == want, 'V4', inst, 'preconditioned overload is not in the enumerated form (translation block /= target scale after estimate_(source.get(), target.get()%s)): %s' % (
+                ', correspondences' if withc else '', got), 'translation block /= target scale', fx.rel(f['loc']), 'E-SIB',
+                   facts=[(len(upd) == 1 and upd[0][0] == '*=' and upd[0][2] in (scale_t, scale_s), 'the translation block is MULTIPLIED by the preconditioning scale (%s): R(s p) + t\' = s (R p + t\'/s), so t = t\'/s' % (upd[0] if upd else '',)),
+                          (not upd and got[:1] == want[:1] and not any(contains(e[1], '.getPreconditioningMatrix') for e in ev), 'the translation estimated on the preconditioned sets is returned without being rescaled by 1/scale')])
 
 
 def check_preconditioned_set(fx, R):
